@@ -522,7 +522,16 @@ def edge_targets_local(b, s_, l):
     return [t for (t, lab) in b.nodes[s_].succ if lab == l]
 
 
+def check_readers(ctx):
+    """flush() loops while a retirement is deferred, and a retirement is deferred while extent_has_readers(): that wait ends only
+    if the reader count always comes back down, i.e. every installed increment is owned by a guard whose drop removes it and a
+    refused acquire adds nothing (same rule as C08.pin's reader-count part)"""
+    from rules import C08
+    C08.check_reader_count(ctx, "C18.readers")
+
+
 def check(ctx):
+    check_readers(ctx)
     check_final_flush(ctx)
     check_progress(ctx)
     g, groups = check_lockorder(ctx)
